@@ -264,10 +264,10 @@ def _sus_input_class(case, p, k, exc=None, clause="counts"):
                 npt = len(numpy.arange(offset, tot, dist))
             except Exception:
                 npt = -1
-        if npt != k:
-            return "sus-arange-pointer-count"
         if isinstance(exc, IndexError) and top:
             return "sus-pointer-past-cumsum"
+        if npt != k and not isinstance(exc, IndexError):
+            return "sus-arange-pointer-count"
         return None
     if clause != "counts":
         return None
